@@ -4,7 +4,7 @@
    several pieces x client FIN or not x time up to beyond the deadline), post-authentication invalid streams; liveness.
    MC_TcpConn_C06Inner.cfg models tcp.go:305-308 AS WRITTEN (drain through the decrypting reader): TLC finds the early
    half-close; that model finding is turned into a behaviour (Gen_TcpConn_C06Witness.cfg) and replayed on the real code.
-2. spec -> code, real sockets, 400 ms handshake timeout: TLC-simulated behaviours (probe classes incl. replays and
+2. spec -> code, real sockets, 600 ms handshake timeout: TLC-simulated behaviours (probe classes incl. replays and
    reflected replays, bit flips, FIN or not, sends at different ticks); FIN vs RST seen by the prober; nothing written.
 3. spec -> code, virtual time (testing/synctest, in-memory conns, 59 s timeout): the same behaviours plus a sweep over
    lengths x ciphers x key-list sizes x replay cache on/off x bit-flip offset classes; close instants compared exactly.
@@ -15,8 +15,8 @@ import vlib
 from checks import tc_common as tc
 
 ASSUME = [
-    "real sockets: 400 ms handshake timeout, model tick = 200 ms; a close observed up to 1.5 s late is tolerated, an early "
-    "close is not (2 ms clock granularity); clients do not send within 120 ms of the deadline",
+    "real sockets: 600 ms handshake timeout, model tick = 300 ms; a close observed up to 1.5 s late is tolerated, an early "
+    "close is not (2 ms clock granularity); clients do not send within 250 ms of the deadline",
     "virtual time: in-memory transport.StreamConn whose deadlines are timers of the synctest bubble; instants compared exactly",
     "all byte strings: enumerated classes x seeded random contents, one bit flip per offset class per scenario",
     "authentication outcomes are abstract in TcpConn.tla (detail: CipherList/TcpAuth modules)",
@@ -25,7 +25,7 @@ ASSUME = [
 
 def run(ctx):
     q = ctx.quick
-    r = vlib.tlc(ctx, "TcpConn", "MC_TcpConn_C06.cfg", workers="auto", timeout=1800)
+    r = vlib.tlc(ctx, "TcpConn", "MC_TcpConn_C06.cfg" if q else "MC_TcpConn_C06Thorough.cfg", workers="auto", timeout=1800)
     ctx.add_tlc(r, "exhaustive pre-auth phase with clock + invalid authenticated streams (drain of the raw connection)")
     if not r.ok:
         raise vlib.Inconclusive("model finding in TcpConn.tla / MC_TcpConn_C06.cfg: %s" % r.violated)
@@ -51,10 +51,11 @@ def run(ctx):
     post = [b for b in behs if tc.features(b)["hs"][0] == "valid" and not tc.features(b)["probe"]]
     pick = tc.select(probes, 140 if q else 1200, lambda f: (f["hs"], min(f["ntok"], 4), f["ticks"] > 2), rng)
     pick += tc.select(post, 40 if q else 400, lambda f: (f["bad"], f["dial"], f["ticks"] > 2), rng)
-    cases, _, _, hung = tc.run_family(ctx, "C06_", pick, label="c06-timed", timeout_ms=400, unit_ms=200, par=16)
+    cases, _, _, hung = tc.run_family(ctx, "C06_", pick, label="c06-timed", par=8, **tc.TIMED)
     if hung:
         raise vlib.Inconclusive("handlers still running after the script ended: %s" % ctx.notes[-1])
     ctx.cov["distinct_nontrivial"] += sum(1 for b in pick if tc.features(b)["probe"] or tc.features(b)["bad"])
+    tc.mech_pass(ctx, cases, pick, label="c06-timed")
     kinds = {}
     for c in cases:
         if c["mlog"] and c["mlog"][-1]["m"] == "Closed":
@@ -74,7 +75,8 @@ def run(ctx):
     ib = tc.gen(ctx, "Gen_TcpConn_C06Inner.cfg", 600 if q else 5000, seed=ctx.seed + 1)
     ib = [b for b in ib if tc.features(b)["bad"]]
     ipick = tc.select(ib, 40 if q else 400, lambda f: (f["junk"], f["dial"], f["tfin"], f["cfin"]), rng)
-    tc.run_family(ctx, "C06_", ipick, label="c06-invalid-authenticated", timeout_ms=5000, par=16)
+    icases, _, _, _ = tc.run_family(ctx, "C06_", ipick, label="c06-invalid-authenticated", timeout_ms=5000, par=16)
+    tc.mech_pass(ctx, icases, ipick, label="c06-invalid-authenticated")
     ctx.cov["distinct_nontrivial"] += len(ipick)
     ctx.cov["self_test_rejected"] = tc.self_test(ctx, cases, tc.REAL_SLACK)
 
@@ -92,7 +94,7 @@ def run(ctx):
                         "TLC enumerates the pre-authentication phase with a clock for every opener class and piece-wise "
                         "delivery; simulated behaviours (pairwise distinct as sequences of environment actions and observations, "
                         "balanced over opener class / number of pieces / timing) are executed on the real handler on real "
-                        "sockets (400 ms timeout) and under virtual time (59 s); non-trivial = the connection fails "
+                        "sockets (600 ms timeout) and under virtual time (59 s); non-trivial = the connection fails "
                         "authentication or turns invalid after it; every connection record is judged by TLC",
                         ASSUME)
 
